@@ -48,7 +48,7 @@ func (c17) Rule() string {
 		"real server: 2..3 clients attached to one document, one holds a WatchDocument stream (established = initialization " +
 		"message read), the others push changes by PushPull with seeded gaps; the stream must deliver a DOCUMENT_CHANGED event " +
 		"of the pusher after each push returned (within 5 s), and nothing from the watcher itself. Non-trivial = >=1 judged " +
-		"(publish, subscription) pair and >=1 stalled or early-unsubscribing subscriber."
+		"(publish, subscription) pair and >=1 stalled or early-unsubscribing subscriber. The watch family pushes through sync, push-only sync, Detach and Attach; sdk-watch family: real clients in realtime mode, an edit must reach the peers' documents within 5 s without any Sync call."
 }
 func (c17) Assumptions() []string {
 	return []string{"the delivery bound (4 s / 5 s) is wall clock; it is 40-50 flush windows and is only applied to subscriptions that stay that long after the publish",
